@@ -150,6 +150,18 @@ theorem C11_copy_bdd_public (s : Tbl) (hS : WFU s) (hVs : VarsBij s) (m : Mgr) (
   obtain ⟨r, m', h1, h2, h3, h4, _, h6, h7⟩ := xcopyBody_spec s hS.toWF hVs m hI hoff hVm u hu hsup
   exact ⟨r, m', h1, h2, h3, h4, h6, h7⟩
 
+/-- C11 (`dd._copy.copy_bdds_from(roots, target)`): one memo serves all roots; every element of
+the result denotes, by variable name, the function of the corresponding root; the target keeps
+its invariant and only gains nodes. -/
+theorem C11_copy_bdds_from (s : Tbl) (hS : WFU s) (hVs : VarsBij s) (m : Mgr) (hI : Inv m)
+    (hoff : m.lastLen = none) (hVm : VarsBij m.tbl) (us : List Int) (hu : ∀ u ∈ us, s.Mem u)
+    (hsup : ∀ u ∈ us, ∀ i v, InSupp s u i → s.l2v[i]? = some v → m.tbl.vars.contains v = true) :
+    ∃ rs m', xcopyList s us {} m = (.ok rs, m') ∧ Inv m' ∧ Ext m.tbl m'.tbl ∧
+      rs.length = us.length ∧
+      ∀ p ∈ us.zip rs, m'.tbl.Mem p.2 ∧ denName m'.tbl p.2 = denName s p.1 := by
+  obtain ⟨rs, m', h1, h2, h3, _, h5, h6⟩ := xcopyList_denName s hS.toWF hVs m hI hoff hVm us hu hsup
+  exact ⟨rs, m', h1, h2, h3, h5, fun p hp => ⟨(h6 p hp).1, (h6 p hp).2.2⟩⟩
+
 /-! ## non-vacuity -/
 
 /-- the state of the example history before the release: nodes 2, 3, 4 -/
@@ -199,6 +211,24 @@ example : ∃ (s : Tbl) (m : Mgr) (u : Int) (r : Int) (m' : Mgr), u.natAbs ≠ 1
     (fun i v _ hv => by
       rw [TreeMap.contains_eq_isSome_getElem?, hV.l2v i v hv]; rfl)
   exact ⟨m.tbl, m, u, r, m', h1, he, hden⟩
+
+example : ∃ (s : Tbl) (m : Mgr) (u : Int) (rs : List Int) (m' : Mgr), u.natAbs ≠ 1 ∧
+    xcopyList s [u, -u] {} m = (.ok rs, m') ∧ rs.length = 2 := by
+  obtain ⟨m, u, hI, hoff, hV, hu, hx, hn, hd, _⟩ := witness
+  have h1 : u.natAbs ≠ 1 := by
+    intro h1
+    rcases abs_one h1 with h | h <;> subst h
+    · have := hd (fun _ => false); rw [den_one] at this; cases this
+    · have := hd (fun _ => true); rw [den_neg_one] at this; cases this
+  obtain ⟨rs, m', he, _, _, hlen, _⟩ := C11_copy_bdds_from m.tbl hI.wf hV m hI hoff hV [u, -u]
+    (fun x hx => by
+      simp only [List.mem_cons, List.not_mem_nil, or_false] at hx
+      rcases hx with rfl | rfl
+      · exact hu
+      · exact mem_neg hu)
+    (fun x _ i v _ hv => by
+      rw [TreeMap.contains_eq_isSome_getElem?, hV.l2v i v hv]; rfl)
+  exact ⟨m.tbl, m, u, rs, m', h1, he, hlen⟩
 example := C14_var_levels_view apiExM.tbl apiExM_good.order
 example : varLevels apiExM.tbl = [("a", 0), ("b", 1)] := by decide
 
